@@ -16,6 +16,7 @@ type shrinkState struct {
 	vals          []uint64
 	spans         []sim.Span
 	replays       int
+	custom        func(vals []uint64) (bool, *world.RunResult)
 	start         time.Time
 	maxReplays    int
 	maxTime       time.Duration
@@ -25,6 +26,9 @@ type shrinkState struct {
 // fingerprint) occurs; on success it returns the spans and the consumed tape of that run.
 func (s *shrinkState) fails(vals []uint64) (bool, *world.RunResult) {
 	s.replays++
+	if s.custom != nil {
+		return s.custom(vals)
+	}
 	r := world.RunOne(s.prop, s.seed, s.variant, vals)
 	for _, v := range r.Violations {
 		if v.Prop == baseProp(s.prop) && v.Fingerprint == s.fp {
@@ -46,8 +50,8 @@ func (s *shrinkState) accept(r *world.RunResult) {
 
 // minimise shrinks a failing tape: (1) delete generator spans, largest first; (2) zero
 // spans; (3) lower single values. Repeats to a fixpoint or until the budget is spent.
-func minimise(prop, variant string, seed uint64, fp string, vals []uint64, maxReplays int, maxTime time.Duration) ([]uint64, int) {
-	s := &shrinkState{prop: prop, variant: variant, seed: seed, fp: fp, start: time.Now(), maxReplays: maxReplays, maxTime: maxTime}
+func minimise(prop, variant string, seed uint64, fp string, vals []uint64, maxReplays int, maxTime time.Duration, custom func(vals []uint64) (bool, *world.RunResult)) ([]uint64, int) {
+	s := &shrinkState{prop: prop, variant: variant, seed: seed, fp: fp, start: time.Now(), maxReplays: maxReplays, maxTime: maxTime, custom: custom}
 	ok, r := s.fails(vals)
 	if !ok {
 		return vals, s.replays
